@@ -244,6 +244,8 @@ class CVRPTWEnv(CVRPEnv):
         self.min_demand = instance["demand"][1:].min()
         self.max_demand = instance["demand"][1:].max()
         self.vehicle_capacity = instance["capacity"]
+        # _reset reads the capacity from the generator: the raw demands of the instance go with ITS capacity
+        self.generator.vehicle_capacity = float(instance["capacity"])
         self.min_loc = instance["node_coord"][1:].min()
         self.max_loc = instance["node_coord"][1:].max()
         self.min_time = instance["time_window"][:, 0].min()
